@@ -488,7 +488,7 @@ def hist_job(job):
         dl += hist_lines(enc_store(store0[mname]), text, ops)
     ans = run_driver("persist", dl) if dl else []
     pos = 0
-    known = {k["signature"] for k in common.load_known() if k["property"] == "C12" and k.get("status") == "open"}
+    known = {sg for k in common.load_known() if k["property"] == "C12" and k.get("status") == "open" for sg in [k["signature"]] + k.get("signatures", [])}
     shrunk = set()
     with pc.TmpDir() as tmp:
         for mname, text, ops in cases:
